@@ -8,7 +8,7 @@ TW_SPLIT = re.compile("[\t\n\x0b\x0c\r ]+")
 
 WORDS = ["a", "bb", "ccc", "dddd", "eeeee", "the", "quick", "brown", "fox", "x" * 12, "y" * 25, "z" * 41, "foo:", "bar.", "Note:", "-", "+", "1.", "22.",
          "*", '"q"', "'s", "\\", "a\\b", "it-em", "http://a-b/c-d", "\x1c", "z:", ":", "e.g.", "(see", "below)", "3.", "i.e.,", "end\"",
-         '"""', '""', '"""""', '\\"""', "C:\\"]
+         '"""', '""', '"""""', '\\"""', "C:\\", "\\\\", "\\\\\\", "x\\\\\\\\", "y" + "\\" * 5]
 SEPS = [" "] * 12 + ["\n"] * 6 + ["  ", "   ", "\n\n", "\n ", "\n  ", "\t", " \n", "\r", "\x0c", ":\n", "\n- ", "\n+ ", "\n1. ", "\n22. ", "\n\n\n", "\x1d", ":\n\n", "\n\n- "]
 
 CORPUS = [
@@ -20,6 +20,14 @@ CORPUS = [
     ("tab\there", 72, 0, 0), ("- a list item only", 10, 0, 0), ("short\n" + "long line " * 10 + "\nshort", 40, 3, 4),
     ("\nleading newline", 20, 0, 0), ("trailing   \n\n", 20, 0, 0), ("a \x1c b", 1, 0, 0), ("colon at 75 percent:" + " w" * 20, 40, 0, 0),
 ]
+
+
+# texts ending in runs of 1..6 backslashes (one line and several lines), and a few quote endings: the tail of rst must make each safe
+RST_CORPUS = [("ends with quote\"", 72, 4, None), ("a `b`", 72, 4, None), ("", 72, 0, None), ('five """"" quotes', 72, 8, None), ('\\"""', 72, 0, False)]
+for _k in range(1, 7):
+    for _t in ("UNC path ends here " + "\\" * _k, "\\" * _k, "line one\nline two " + "\\" * _k, "Note:\n- item " + "\\" * _k + "\n", "a\n\n" + "\\" * _k):
+        for _w, _i, _nl in ((72, 4, None), (72, 0, False), (40, 8, True), (72, 16, False)):
+            RST_CORPUS.append((_t, _w, _i, _nl))
 
 
 def gen_text(r):
@@ -119,8 +127,9 @@ def oracle_rst(text, width, indent, nl, rec):
     w_out, w_in = words(unescape(out)), words(unescape(text))
     if w_out != w_in and not (w_in and w_in[-1].endswith('"') and w_out == w_in[:-1] + [w_in[-1] + "."]):
         bad.append(("words", f"rst (plain path) changed the words: {out!r:.160}", first_line_class(text, width - indent, indent + 3)))
-    if out.endswith('"') or out.endswith("\\"):
-        bad.append(("quote-guard", "the result ends in a double quote or a backslash: the closing triple quote would absorb it / be escaped", None))
+    run = len(out) - len(out.rstrip("\\"))
+    if out.endswith('"') or run % 2 == 1:
+        bad.append(("quote-guard", f"the result ends in a double quote or in an odd run of {run} backslash(es): the closing triple quote would absorb it / be escaped: {out[-12:]!r}", None))
     return bad
 
 
